@@ -381,54 +381,54 @@ def _bc(c, x):
     return e.reshape((2, 1)), ev, r, rv
 
 
-@case("abs-broadcast (2,1) vs (2,2)", exact=False)
+@case("abs-broadcast (2,1) vs (2,2)")
 def _(c, m, x):
     e, ev, r, rv = _bc(c, x)
     k = _mult(c)
     return k * abs(e) <= r, lambda xv, aux: p_and(*[p_le(k * abs(ev(xv)[i]), rv(xv)[i, j]) for i in range(2) for j in range(2)])
 
 
-@case("square-broadcast (2,1) vs (2,2)", exact=False)
+@case("square-broadcast (2,1) vs (2,2)")
 def _(c, m, x):
     e, ev, r, rv = _bc(c, x)
     k = _mult(c)
     return k * rsome.square(e) <= r, lambda xv, aux: p_and(*[p_le(k * ev(xv)[i] * ev(xv)[i], rv(xv)[i, j]) for i in range(2) for j in range(2)])
 
 
-@case("square-scalar-argument vs (2,)", exact=False)
+@case("square-scalar-argument vs (2,)")
 def _(c, m, x):
     e, ev = lin(c, x, 2, "in")
     r, rv = _rhs(c, x, (2,))
     return rsome.square(e[0]) <= r, lambda xv, aux: p_and(*[p_le(ev(xv)[0] * ev(xv)[0], rv(xv)[j]) for j in range(2)])
 
 
-@case("reflected-square-broadcast: (2,2) >= square (2,1)", exact=False)
+@case("reflected-square-broadcast: (2,2) >= square (2,1)")
 def _(c, m, x):
     e, ev, r, rv = _bc(c, x)
     return r >= rsome.square(e), lambda xv, aux: p_and(*[p_le(ev(xv)[i] * ev(xv)[i], rv(xv)[i, j]) for i in range(2) for j in range(2)])
 
 
-@case("exp-broadcast (2,1) vs (2,2)", exact=False)
+@case("exp-broadcast (2,1) vs (2,2)")
 def _(c, m, x):
     e, ev, r, rv = _bc(c, x)
     k = _mult(c)
     return k * rsome.exp(e) <= r, lambda xv, aux: p_and(*[K(ev(xv)[i], rv(xv)[i, j] / k, 1.0) for i in range(2) for j in range(2)])
 
 
-@case("exp-row (2,) vs (2,2)", exact=False)
+@case("exp-row (2,) vs (2,2)")
 def _(c, m, x):
     e, ev, r, rv = _bc(c, x)
     return rsome.exp(e.reshape((2,))) <= r, lambda xv, aux: p_and(*[K(ev(xv)[j], rv(xv)[i, j], 1.0) for i in range(2) for j in range(2)])
 
 
-@case("log-broadcast (2,1) vs (2,2)", exact=False)
+@case("log-broadcast (2,1) vs (2,2)")
 def _(c, m, x):
     e, ev, r, rv = _bc(c, x)
     k = _mult(c)
     return k * rsome.log(e) >= r, lambda xv, aux: p_and(*[K(rv(xv)[i, j] / k, ev(xv)[i], 1.0) for i in range(2) for j in range(2)])
 
 
-@case("pexp-broadcast (2,1),(2,1) vs (2,2)", exact=False)
+@case("pexp-broadcast (2,1),(2,1) vs (2,2)")
 def _(c, m, x):
     e, ev, r, rv = _bc(c, x)
     s_, sv = lin(c, x, 2, "sc")
